@@ -28,6 +28,45 @@ def _default_idiom(v: ast.AST, is_alias) -> bool:
     return False
 
 
+def _through_helper(v: ast.AST, f: Func, al) -> bool:
+    """v = self._own_env(env) / _own_env(env): a helper of the class / module every return of which is its parameter or
+    the default idiom over it, applied to the env object."""
+    if not (isinstance(v, ast.Call) and len(v.args) == 1 and not v.keywords and al(v.args[0])):
+        return False
+    hd = None
+    if isinstance(v.func, ast.Name):
+        hd = f.module.defs.get(v.func.id)
+    elif isinstance(v.func, ast.Attribute) and isinstance(v.func.value, ast.Name) and f.cls:
+        cd = next((x for x in ast.walk(f.module.tree) if isinstance(x, ast.ClassDef) and x.name == f.cls.split("@")[0]), None)
+        hd = next((x for x in (cd.body if cd else []) if isinstance(x, ast.FunctionDef) and x.name == v.func.attr), None)
+    if not isinstance(hd, ast.FunctionDef):
+        return False
+    ps = [a.arg for a in hd.args.args if a.arg not in ("self", "cls")]
+    if len(ps) != 1:
+        return False
+    pal = lambda x: isinstance(x, ast.Name) and x.id == ps[0]          # noqa: E731
+    rets = [x for x in own_nodes(hd) if isinstance(x, ast.Return)]
+    stores = [x for x in own_nodes(hd) if isinstance(x, ast.Name) and isinstance(x.ctx, ast.Store)]
+    if not rets:
+        return False
+    for rt in rets:
+        if rt.value is None:
+            return False
+        if pal(rt.value) or _default_idiom(rt.value, pal):
+            continue
+        # if env is None: return {}   ...   return env
+        par = f.module.parents.get(rt)
+        if isinstance(rt.value, ast.Dict) and not rt.value.keys and isinstance(par, ast.If) and U(par.test) == f"{ps[0]} is None":
+            continue
+        return False
+    def guarded_default(x: ast.Name) -> bool:
+        a = f.module.parents.get(x)
+        g = f.module.parents.get(a)
+        return isinstance(a, ast.Assign) and isinstance(a.value, ast.Dict) and not a.value.keys and len(a.targets) == 1 \
+            and isinstance(g, ast.If) and U(g.test) == f"{ps[0]} is None" and a in g.body
+    return not [x for x in stores if x.id == ps[0] and not guarded_default(x)]
+
+
 def _is_env_alias(e: ast.AST, f: Func | None = None, depth: int = 0) -> bool:
     """The env object itself: the name / parameter `env`, an attribute `.env`, or a local of f bound only to the env object
     or to the default idiom over it."""
@@ -40,40 +79,7 @@ def _is_env_alias(e: ast.AST, f: Func | None = None, depth: int = 0) -> bool:
         if ds and not others:
             al = lambda x: _is_env_alias(x, f, depth + 1)          # noqa: E731
 
-            def through_helper(v: ast.AST) -> bool:
-                """v = self._own_env(env) / _own_env(env): a helper of the class / module every return of which is its parameter or
-                the default idiom over it, applied to the env object."""
-                if not (isinstance(v, ast.Call) and len(v.args) == 1 and not v.keywords and al(v.args[0])):
-                    return False
-                hd = None
-                if isinstance(v.func, ast.Name):
-                    hd = f.module.defs.get(v.func.id)
-                elif isinstance(v.func, ast.Attribute) and isinstance(v.func.value, ast.Name) and f.cls:
-                    cd = next((x for x in ast.walk(f.module.tree) if isinstance(x, ast.ClassDef) and x.name == f.cls.split("@")[0]), None)
-                    hd = next((x for x in (cd.body if cd else []) if isinstance(x, ast.FunctionDef) and x.name == v.func.attr), None)
-                if not isinstance(hd, ast.FunctionDef):
-                    return False
-                ps = [a.arg for a in hd.args.args if a.arg not in ("self", "cls")]
-                if len(ps) != 1:
-                    return False
-                pal = lambda x: isinstance(x, ast.Name) and x.id == ps[0]          # noqa: E731
-                rets = [x for x in own_nodes(hd) if isinstance(x, ast.Return)]
-                stores = [x for x in own_nodes(hd) if isinstance(x, ast.Name) and isinstance(x.ctx, ast.Store)]
-                if not rets:
-                    return False
-                for rt in rets:
-                    if rt.value is None:
-                        return False
-                    if pal(rt.value) or _default_idiom(rt.value, pal):
-                        continue
-                    # if env is None: return {}   ...   return env
-                    par = f.module.parents.get(rt)
-                    if isinstance(rt.value, ast.Dict) and not rt.value.keys and isinstance(par, ast.If) and U(par.test) == f"{ps[0]} is None":
-                        continue
-                    return False
-                return not [x for x in stores if x.id == ps[0] and not (isinstance(f.module.parents.get(x), ast.Assign)
-                            and isinstance(f.module.parents.get(x).value, ast.Dict) and not f.module.parents.get(x).value.keys)]
-            return all(al(d.value) or _default_idiom(d.value, al) or through_helper(d.value) or (
+            return all(al(d.value) or _default_idiom(d.value, al) or _through_helper(d.value, f, al) or (
                 isinstance(d.value, ast.Dict) and not d.value.keys and isinstance(f.module.parents.get(d), ast.If)
                 and U(f.module.parents.get(d).test).endswith(" is None")) for d in ds)
     return False
@@ -130,6 +136,8 @@ def rule_env(c: Ctx) -> RuleResult:
                 if not ok and isinstance(v, ast.Dict) and not v.keys and isinstance(par, ast.If) and U(par.test) == "env is None" \
                         and n in par.body and not par.orelse:
                     ok = True
+                # helper form:  env = self._env_or_new(env)
+                ok = ok or _through_helper(v, f, lambda x: isinstance(x, ast.Name) and x.id == "env")
                 r.add(f"{f.short}|default env", c.where(f, n), f.short, U(n), "discharged" if ok else "violation",
                       "a fresh empty mapping only when the caller passed none; otherwise the caller's object" if ok else
                       "the entry point rebinds env to something other than `{} if env is None else env`: a caller-supplied (possibly empty) "
